@@ -235,10 +235,25 @@ def host_obs(lib, names, rng, quick):
         seen_args = []
         p.set_function('PEEK', lambda *a: (seen_args.append(a), a[0] if a else None)[1])
         before = [enc(x) for x in lists]
+        # which object sits where: the host's lists hold the same objects afterwards (an equal replacement is a write too)
+        reg = {}
+
+        def ids(x, make):
+            out = []
+            for v in x:
+                if isinstance(v, list):
+                    out.append(ids(v, make))
+                else:
+                    if make:
+                        reg.setdefault(id(v), len(reg) + 1)
+                    out.append(reg.get(id(v), 0))
+            return out
+        idb = [ids(x, True) for x in lists]
         with quiet():
             p.parse(text)
         after = [enc(x) for x in lists]
-        obs.append({'kind': 'host', 'formula': text, 'mode': mode, 'before': before, 'after': after,
+        ida = [ids(x, False) for x in lists]
+        obs.append({'kind': 'host', 'formula': text, 'mode': mode, 'before': before, 'after': after, 'idb': idb, 'ida': ida,
                     'in': {'formula': text, 'mode': mode, 'hosts': before}})
 
     def ref(mode, i):
@@ -277,6 +292,12 @@ def host_obs(lib, names, rng, quick):
                   'INDEX(%s,1)', 'LARGE(%s,1)', 'MEDIAN(%s)+MAX(%s)']:
             n = t.count('%s')
             one(t % tuple([a, b][:n] if n <= 2 else [a] * n), [HOSTLISTS[1], HOSTLISTS[0]][:max(n, 1)], mode)
+        # a host list that holds error values the host made itself (equal to the library's, not the same objects)
+        from hotxlfp.formulas import error as _E
+        for t in ['%s', 'INDEX(%s,2)', 'IF(1,%s,2)', 'ISNA(INDEX(%s,2))', 'SUM(%s)', 'IFERROR(%s,0)', '{%s,1}', 'CHOOSE(1,%s)', 'COUNT(%s)',
+                  'IFNA(INDEX(%s,2),0)', '%s&""', 'MATCH(3,%s,0)']:
+            one(t % a, [[1, _E.XLError('#N/A'), 3.5, _E.XLError('#DIV/0!')]], mode)
+            one(t % a, [[[1, 2.5], [_E.XLError('#REF!'), 4]]], mode)
     return obs
 
 
